@@ -89,6 +89,10 @@ def run_cfg(ctx, fx):
     # R14.7 (shared with C08) "register-if-stopped reacts to a termination nobody awaited": whether a registration is refused is
     # decided in one place, under the registry lock, on the entry's liveness — every other way to register (the builder's
     # `register()`) forwards to it on every path and neither refuses nor succeeds of its own
+    # R14.8 (shared with C08) the lookup that respawns on demand reacts to a termination: `from_registry` / `setup` are the
+    # spawn-on-demand operation and nothing else — no fast path of their own in front of it (one that holds a read guard while it
+    # calls the operation deadlocks exactly when the entry has terminated)
+    core.shared_from(ctx, _c08.check_cfg, fx, fx.cfg, "R14.8", ("R08.5",), r"^(from_registry|setup)@", 2, "lookup wrappers")
     core.shared_from(ctx, _c08.check_cfg, fx, fx.cfg, "R14.7", ("R08.7",), r"^(still-running-decided-under-lock|register-forwarder)", 2, "registration decided in one place")
 
 
